@@ -85,6 +85,7 @@ fn main() {
     "C07" => vprop::c07::run(&cfg),
     "C10" => vprop::c10::run(&cfg),
     "C12" => vprop::c12::run(&cfg),
+    "C14" => vprop::c14::run(&cfg),
     "C16" => vprop::c16::run(&cfg),
     "C18" => vprop::c18::run(&cfg),
     "C19" => vprop::c19::run(&cfg),
